@@ -83,3 +83,42 @@ Theorem C11_splice_joins : forall fuel a l rest,
   forall joined_ends_plain_crlf : ends_with ("\" ++ cr ++ nl) (a ++ l) = false,
   splice (S (S fuel)) (a ++ "\" ++ nl) (l :: rest) 0%N = (a ++ l, 1%N, rest).
 Proof. exact splice_joins. Qed.
+
+(** a TAB after the directive word is as good as a blank (repaired defect: "#ifdef<TAB>FOO" was
+    the word "#ifdef<TAB>FOO" without argument) *)
+Theorem C11_directive_parts_blank_or_tab : forall w c z,
+  split_blank w = None -> is_blank_or_tab c = true ->
+  contains "//" (w ++ String c z) = false ->
+  directive_parts (w ++ String c z) = (w, if String.eqb (trim z) "" then None else Some (trim z)).
+Proof. exact directive_parts_blank_or_tab. Qed.
+
+Theorem C11_directive_parts_tab_like_blank : forall w z,
+  split_blank w = None ->
+  contains "//" (w ++ TAB ++ z) = false -> contains "//" (w ++ " " ++ z) = false ->
+  directive_parts (w ++ TAB ++ z) = directive_parts (w ++ " " ++ z).
+Proof. exact directive_parts_tab_like_blank. Qed.
+
+Example C11_ifdef_tab_example :
+  match run_cpp [] "m.c" [("FOO", "1")] ["#ifdef" ++ TAB ++ "FOO" ++ nl; "x" ++ nl; "#else" ++ nl; "y" ++ nl; "#endif" ++ nl] with
+  | POk p => p_out p = "x" ++ nl
+  | PErr _ => False
+  end
+  /\ run_cpp [] "m.c" [] ["#ifdef" ++ TAB ++ "FOO" ++ nl; "x" ++ nl; "#else" ++ nl; "y" ++ nl; "#endif" ++ nl]
+     = run_cpp [] "m.c" [] ["#ifdef FOO" ++ nl; "x" ++ nl; "#else" ++ nl; "y" ++ nl; "#endif" ++ nl].
+Proof. vm_compute. split; reflexivity. Qed.
+
+(** an #include line keeps its quotes whatever white space precedes the directive (repaired
+    defect: with leading blanks the file name was taken for a string literal) *)
+Theorem C11_include_line_not_scanned : forall asm l st,
+  sc_in_comment st = false ->
+  starts_with "#include" (trim_start l) = true ->
+  contains "//" l = false -> contains "/*" l = false ->
+  scan_line asm l st = ScanOk l true st.
+Proof. exact include_line_not_scanned. Qed.
+
+Example C11_include_leading_blanks_example :
+  match run_cpp [("f.h", ["int x;" ++ nl])] "m.c" [] ["   #include ""f.h""" ++ nl; "int y;" ++ nl] with
+  | POk p => p_out p = "int x;" ++ nl ++ "int y;" ++ nl /\ c_scan (p_ctx p) = mkScan false 0 []
+  | PErr _ => False
+  end.
+Proof. vm_compute. split; reflexivity. Qed.
